@@ -202,6 +202,62 @@ c_destroys = ("jpeg_destroy_compress(" in hc) or ("tj3Destroy(" in hc)
 d_destroys = (("jpeg_destroy_decompress(" in hdn) and ("jpeg_destroy_compress(" in hdn)) or ("tj3Destroy(" in hdn)
 handler_destroys = c_destroys and d_destroys
 
+# ---------------------------------------------------------------- destination-buffer protocol
+def block_after(text, start):
+    """the {...} block that starts at the first '{' at/after start; returns (begin, end) indices"""
+    i = text.index("{", start)
+    d, j = 1, i + 1
+    while d and j < len(text):
+        d += text[j] == "{"
+        d -= text[j] == "}"
+        j += 1
+    return i, j
+
+
+def dest_policy(fname, fn):
+    src = rd(fname)
+    b = func_body(src, fn, fname)
+    m = need(re.search(r"if \(cinfo->dest == NULL\)", b), "%s: %s: first-time branch 'if (cinfo->dest == NULL)' not found" % (fname, fn))
+    i, j = block_after(b, m.end())
+    first, rest = b[i:j], b[:i] + " ; " + b[j:]
+    if re.search(r"reused = TRUE; else dest->newbuffer = NULL;", rest) and \
+       re.search(r"if \(dest->buffer == \*outbuffer && \*outbuffer != NULL && alloc\) reused = TRUE;", rest):
+        return 1
+    if re.search(r"[;}] dest->newbuffer = NULL;", rest) and not re.search(r"else dest->newbuffer = NULL;", rest):
+        return 0
+    if "dest->newbuffer = NULL;" in first:
+        return 2
+    sys.exit("%s: %s: cannot classify when dest->newbuffer is cleared" % (fname, fn))
+
+
+for fname in ("src/jdatadst.c", "src/jdatadst-tj.c"):
+    src = rd(fname)
+    b = func_body(src, "empty_mem_output_buffer", fname)
+    need(re.search(r"free\(dest->newbuffer\); dest->newbuffer = nextbuffer;", b) and re.search(r"dest->buffer = nextbuffer;", b),
+         "%s: empty_mem_output_buffer no longer frees newbuffer and installs the new buffer" % fname)
+    b = func_body(src, "term_mem_destination", fname)
+    need(re.search(r"\*dest->outbuffer = dest->buffer;", b), "%s: term_mem_destination no longer stores dest->buffer in *outbuffer" % fname)
+pol_lj = dest_policy("src/jdatadst.c", "jpeg_mem_dest")
+pol_tj = dest_policy("src/jdatadst-tj.c", "jpeg_mem_dest_tj")
+
+# exit paths of every TurboJPEG function that writes through jpeg_mem_dest_tj
+term_sites = []
+for fname in ("src/turbojpeg.c", "src/turbojpeg-mp.c"):
+    txt = strip_comments(rd(fname))
+    for chunk in re.split(r"\nDLLEXPORT ", txt)[1:]:
+        if "jpeg_mem_dest_tj(" not in chunk or "bailout:" not in chunk:
+            continue
+        name = re.search(r"(tj3\w+|GET_NAME\(\w+)", chunk).group(1).replace("GET_NAME(", "")
+        epi = " ".join(chunk.split("bailout:")[-1].split())
+        handlers = re.findall(r"if \(setjmp\(this->jerr\.setjmp_buffer\)\) \{(.*?)goto bailout; \}", " ".join(chunk.split()))
+        in_epi = "term_destination" in epi
+        in_h = bool(handlers) and all("term_destination" in h for h in handlers)
+        term_sites.append((fname.split("/")[-1], name, in_epi, in_h))
+if len(term_sites) < 3:
+    sys.exit("turbojpeg*.c: expected >= 3 functions writing through jpeg_mem_dest_tj with a bailout epilogue, found %d" % len(term_sites))
+tj_term_throw = all(e for _, _, e, _ in term_sites)
+tj_term_longjmp = all(e or h for _, _, e, h in term_sites)
+
 P("(* GENERATED by tools/gen_MemConst.py from src/jmemsys.h, jmemmgr.c, jmemnobs.c, jpeglib.h, turbojpeg.c,")
 P("   turbojpeg-mp.c, rdbmp.c, rdppm.c -- do not edit *)")
 P("From Coq Require Import ZArith.\nLocal Open Scope Z_scope.\n")
@@ -227,4 +283,12 @@ P("(* tj3Init: do the setjmp handlers of _tjInitCompress/_tjInitDecompress destr
 P("(* _tjInitCompress handler: %s *)" % hc.strip().replace("(*", "( *").replace("*)", "* )"))
 P("(* _tjInitDecompress handler: %s *)" % hdn.strip().replace("(*", "( *").replace("*)", "* )"))
 P("Definition tjinit_handler_destroys : bool := %s." % ("true" if handler_destroys else "false"))
+P("(* destination buffer: when does jpeg_mem_dest clear dest->newbuffer?  0 = on every call, 1 = on every call that does not")
+P("   reuse the manager's own buffer, 2 = only when the manager is created *)")
+P("Definition memdest_policy_ljpeg : Z := %d.   (* jdatadst.c jpeg_mem_dest *)" % pol_lj)
+P("Definition memdest_policy_tj : Z := %d.      (* jdatadst-tj.c jpeg_mem_dest_tj *)" % pol_tj)
+for fn_, nm_, e_, h_ in term_sites:
+    P("(* %s %s: term_destination in the bailout epilogue: %s, in the setjmp handler(s): %s *)" % (fn_, nm_, e_, h_))
+P("Definition tj_term_on_throw : bool := %s." % ("true" if tj_term_throw else "false"))
+P("Definition tj_term_on_longjmp : bool := %s." % ("true" if tj_term_longjmp else "false"))
 print("\n".join(out))
